@@ -426,3 +426,5 @@ func genTenantE2E(r *rand.Rand, n int, tier string) []string {
 	}
 	return out
 }
+
+func init() { registerWorker("tnworker", tnWorkerMain) }
